@@ -6,32 +6,39 @@ import re
 from lib.common import model_run_parallel, src_hashes
 
 PID = "C05"
-RULE = ("correspondence: extracted Coq model (level-map machine + rubric branch + nested_render_text) vs the doctree built by the "
-        "docutils front end, on every level sequence 1..6 up to length 6 (thorough; <= 4 quick), random longer sequences "
-        "interleaved with paragraphs, headings inside block quotes / list items / every registered docutils directive that nested-parses "
-        "Markdown content (probed from the directive registry: admonitions, topic, sidebar, container, compound, epigraph, figure legend, "
-        "list-table / csv-table cells, header/footer, class ...) / ordered list items / definition-list dd / field-list bodies / footnote "
+RULE = ("gen: update_section_level_state, the section/rubric skeleton of render_heading and nested_render_text._restore are "
+        "re-translated from base.py into Gallina on every run (fail-closed) and proved equal to the model; correspondence: extracted "
+        "Coq model vs the doctree built by the docutils front end (both tiers) and by in-process Sphinx builds (thorough tier, {only} as "
+        "the match_titles directive) on every level sequence 1..6 up to length 6 (thorough; <= 4 quick), random longer sequences with "
+        "paragraphs, headings inside block quotes / list items / every registered docutils directive that nested-parses Markdown "
+        "content (probed from the directive registry) / ordered list items / definition-list dd / field-list bodies / footnote "
         "definitions / colon-fence divs and directives / a match_titles directive, in every surrounding context and in pairs, "
-        "{include} files with :heading-offset: (scratch files); relation = tree of (section|rubric, level, marker) + multiset of "
-        "[myst.header] warnings; search: parent of every section computed independently (closest preceding still-open heading of "
-        "lower level), rubric levels, warning count; non-trivial = a document with a level skip, a level decrease or a nested heading")
-TRUSTED = ["gen/c05_src.py (round 3) regenerates update_section_level_state, the section/rubric skeleton of render_heading and "
-           "nested_render_text._restore as Gallina code over the state record of Sect/Sections.v; domain mapping: _level_to_section = "
-           "association list in dict order, current_node / _heading_offset / md_env['temp_root_node'] = record fields, append / "
-           "create_warning(append_to=) = log entries, max of empty = ValueError, missing key = KeyError, isinstance(.., document|section) = "
-           "is_doc_or_section (any other class set is refused), the statements listed in RH_SKIP (line/source, attributes, classes, title "
-           "node, inline children, heading target) are dropped; refinement to the model proved in Sect/SectSrcProofs.v",
-           "coq/Sect/Sections.v is a hand transcription of setup_render/_level_to_section, update_section_level_state, render_heading, "
-           "current_node_context, nested_render_text (base.py), MockState.nested_parse and MockIncludeDirective (mocking.py)",
-           "markdown-it-py block structure: the generated markdown is parsed into the intended nesting of headings, quotes, list items, "
-           "fences (the correspondence fails if it is not)",
-           "docutils directives: admonitions call state.nested_parse(content, offset, node) without match_titles"]
-ORACLES = {"O_mdit_blocks": "markdown-it produces heading/blockquote/list_item/fence tokens for the generated text as intended (every correspondence case)",
-           "O_admonition": "the docutils note directive nested-parses its body into the admonition node (cases with {note})",
-           "O_include": "MockIncludeDirective reads the scratch file and renders it in place with the given heading-offset (cases with {include})"}
+        "{include} files with :heading-offset: incl. nested includes (scratch files); relation = tree of (section|rubric, level, "
+        "marker) + multiset of [myst.header] warnings; search: parent of every section computed independently (closest preceding "
+        "still-open heading of lower level), rubric levels with the offsets added up, warning count, source order; non-trivial = a "
+        "document with a level skip, a level decrease, a nested heading or an include")
+TRUSTED = ["Coq 8.16.1 kernel; the statements of coq/Props/C05.v and the specification coq/Sect/SectionsSpec.v (ParentSpec, parent_spec, "
+           "exp_edge, exp_warn, heading_levels, doc_headings)",
+           "gen/c05_src.py (own fail-closed walker) regenerates update_section_level_state (every statement), the section/rubric "
+           "skeleton of render_heading and nested_render_text._restore as Gallina code over the state record of Sect/Sections.v; domain "
+           "mapping: _level_to_section = association list in dict order, current_node / _heading_offset / md_env['temp_root_node'] = "
+           "record fields, x.append(y) / create_warning(append_to=x) = log entries, heading number = label of the new node, max of an "
+           "empty generator = ValueError, missing key = KeyError, isinstance(.., document|section) = is_doc_or_section (any other class "
+           "set is refused), dict(d.items()) = d, the statements listed in RH_SKIP (line/source, attributes, mathjax classes, title node, "
+           "inline children, heading target) are dropped, unknown statements are an error; refinement proved in Sect/SectSrcProofs.v",
+           "hand transcription (checked by correspondence, not regenerated): the token-tree walk of coq/Sect/Sections.v - container "
+           "tokens via current_node_context, MockState.nested_parse (directive bodies, match_titles), MockIncludeDirective (heading-offset)",
+           "markdown-it-py block structure: the generated markdown is parsed into the intended nesting (the correspondence fails if not)",
+           "docutils directives nested-parse their content into their node; the kinds used are probed on every run and listed in the evidence notes"]
+ORACLES = {"O_mdit_blocks": "markdown-it produces heading/blockquote/list_item/fence/dl/field_list/footnote/colon_fence tokens for the "
+                            "generated text as intended (every correspondence case; a container-kind probe run first)",
+           "O_directives": "every docutils directive with content that accepts a heading body (22 on this tree: admonitions, topic, sidebar, "
+                           "container, compound, epigraph, highlights, pull-quote, figure legend, list-table / csv-table cells, header, "
+                           "footer, class) nested-parses it into its own node without match_titles (systematic cases per kind)",
+           "O_include": "MockIncludeDirective reads the scratch file and renders it in place with the given heading-offset (cases with {include})",
+           "O_sphinx": "thorough tier: the same documents through lib.impl.SphinxProject; {only} nested-parses with match_titles=True"}
 ASSUMPTIONS = ["heading levels are 1..6 plus non-negative heading-offsets (offsets of nested includes add up, fix 94acff7)",
-               "docutils front end in both tiers; the thorough tier repeats the correspondence through in-process Sphinx builds "
-               "({only} as the match_titles directive)"]
+               "docutils front end in both tiers; Sphinx front end in the thorough tier"]
 
 
 def gen(ctx):
@@ -863,16 +870,25 @@ def replay(ctx, data):
     return 0 if ok else 1
 
 
-LEVEL_TEXT = ("Proof (Coq): for every sequence of heading levels >= 1 of any length the level-map machine of update_section_level_state "
-              "never raises (level 0 stays in the map, keys strictly increasing), attaches heading i to the closest preceding still-open "
-              "heading of lower level (or the document) in source order, and emits exactly one [myst.header] warning per upward skip of "
-              "more than one level; the same for whole documents (C05_document_sections: document-level headings interleaved with any "
-              "blocks, containers, directive bodies and nested heading-offset includes, w.r.t. the effective levels); for every token "
-              "tree a heading below a container or a directive body creates a rubric with its level and leaves level map, current node, "
-              "offset and section structure untouched; nested_render_text with a temp root restores the level map. Tied to "
-              "base.py/mocking.py by differential correspondence (exhaustive level sequences, nested containers, directives, "
-              "heading-offset includes) on every run.")
-LEVEL_NOTE = ("Trusted: Coq kernel; the hand transcription in coq/Sect/Sections.v (checked by correspondence, not proved); markdown-it block "
-              "parsing and docutils admonition/include plumbing as oracles. Directives that nested-parse with match_titles=True (none in "
-              "docutils itself; Sphinx's `only`) do open sections by design: they are modelled (TDirective true), covered by "
-              "C05_level_map_inv and C05_restore_after_*, exercised through a test directive, and excluded from C05_document_sections.")
+LEVEL_TEXT = ("Proof (Coq 8.16, 15 theorems, all closed under the global context). FULL, for every input without bound: "
+              "C05_level_map_inv (any token tree with tags >= 1: rendering never raises, level 0 stays first in the level map, keys "
+              "strictly increasing); C05_sections_refine_spec + C05_skip_warnings (every level sequence: exactly one edge per heading, in "
+              "source order, from the closest preceding still-open heading of lower level or the document; exactly one [myst.header] "
+              "warning per upward skip of more than one level and nothing else); C05_parent_spec_unique, C05_greatest_lower_is_open; "
+              "C05_document_sections (whole documents: document-level headings interleaved with any blocks, containers, directive "
+              "bodies and nested heading-offset includes, w.r.t. effective levels = tag + sum of the enclosing offsets); "
+              "C05_directive_headings_are_rubrics; C05_restore_after_nested, C05_restore_after_titled_directive; "
+              "C05_titled_directive_attaches (where a match_titles directive attaches its section). TIED TO REGENERATED CODE: "
+              "C05_source_refines_model (update_section_level_state, render_heading skeleton, nested_render_text._restore as "
+              "re-translated from base.py on this run = model) and C05_sections_refine_spec_src (the refinement theorem on the "
+              "regenerated step). PARTIAL + REFUTED: C05_nested_headings_are_rubrics_partial (containers never make sections, rubrics "
+              "record their level - guarded by 'no match_titles directive inside') with C05_nested_headings_are_rubrics_refuted.")
+LEVEL_NOTE = ("Open finding (KNOWN-FINDING on every run): sections:match-titles-directive-opens-section - a directive that nested-parses "
+              "with match_titles=True (Sphinx {only}) opens sections even inside a block quote, attached through the outer level map to "
+              "an outer section, not to the directive's node; characterised by C05_titled_directive_attaches, not repaired. Fixed during "
+              "the work: 94acff7 (heading offsets of nested renders accumulate). Oracle / trusted parts: the token-tree walk of "
+              "Sections.v (containers, MockState.nested_parse, MockIncludeDirective) is hand-written and tied by differential "
+              "correspondence only (docutils both tiers, Sphinx thorough tier); markdown-it block parsing and the docutils directive "
+              "classes are oracles; statements of render_heading listed in RH_SKIP are asserted irrelevant. Limits: inline children, ids "
+              "and names of headings are outside the model (C09/C10); an exception inside nested_render_text skips the restore "
+              "(modelled as Raise, unreachable by C05_level_map_inv).")
